@@ -31,12 +31,16 @@ def cases(rng, tier):
                 n0, n1 = rng.choice([2, 3]), rng.choice([2, 3])
                 w0 = G.rand_opinion(rng, n0, den, G.rand_kind(rng))
                 w1 = G.rand_opinion(rng, n1, den, G.rand_kind(rng))
+                if rng.random() < 0.15:     # tiny positive base-rate entries: joint base rates below machine epsilon but not zero
+                    w0 = G.tiny_opinion(rng, fmt, w0, n0, "a"); w1 = G.tiny_opinion(rng, fmt, w1, n1, "a")
                 gid = CROSS_GROUPS[0]; CROSS_GROUPS[0] += 1
                 out.append((G.line("prod2", fmt, fam + "." + st, [n0, n1], w0 + w1), ("tr", gid, 0, n0, n1)))
                 out.append((G.line("prod2", fmt, fam + "." + st, [n1, n0], w1 + w0), ("tr", gid, 1, n0, n1)))
             else:
                 ns = [rng.choice([2, 3]) for _ in range(3)]
                 ws = [G.rand_opinion(rng, n, den, G.rand_kind(rng)) for n in ns]
+                if rng.random() < 0.15:
+                    ws = [G.tiny_opinion(rng, fmt, w, n, "a") for w, n in zip(ws, ns)]
                 out.append(G.line("prod3", fmt, fam + "." + st, ns, ws[0] + ws[1] + ws[2]))
     return out
 
